@@ -8,6 +8,7 @@ import FpgoVerif.Model.C20Match
       cp <C|CI|P|PI> <ints>: f ; f ; …            Compose / ComposeInterface / Pipe / PipeInterface
       cg <C|P> <k> <ints>: f ; f ; …              regrouped at k: X(X(fs[:k]), X(fs[k:]))
       ru <steps> <ints>: f ; f ; …                one slice reused: steps C P I J g<k> h<k> x, comma separated
+      rr <steps> <ints A> <ints B>: f ; f ; …     each built function: run on A, on B, re-read result A, run again, re-read B
       ad <adapter> <bound ints>: <ints>           one adapter call
       tr <kd> <ke> <mode>: <ints>                 Trampoline with the step family
       cu <G|I> <n>: c:<ints> ; d ; r ; i ; …      CurryDef script (Call / MarkDone / Result / IsDone)
@@ -42,7 +43,12 @@ def splitCase (line : String) : List String × String :=
 def sumL (l : List Int) : Int := l.foldl (· + ·) 0
 
 def fnOfTok (t : String) : Fn Int :=
-  if t == "r" then total List.reverse
+  if t == "id" then total (fun s => s)                                   -- pass-through stages: in Go they hand back
+  else if t == "so" then total (fun s => s.mergeSort (fun a b => decide (a ≤ b)))   -- the slice they were given
+  else if t == "sd" then total (fun s => s.mergeSort (fun a b => decide (a ≥ b)))   -- (sorted in place) or a view of it
+  else if t.startsWith "tk" then total (fun s => s.take ((dropS t 2).toNat?.getD 0))
+  else if t.startsWith "dk" then total (fun s => s.drop ((dropS t 2).toNat?.getD 0))
+  else if t == "r" then total List.reverse
   else if t == "t" then total (fun s => s.drop 1)
   else if t == "s" then total (fun s => [sumL s])
   else if t == "d" then total (fun s => s ++ s)
@@ -127,6 +133,19 @@ def runRU (impl : Bool) (script : String) (input : List Int) (fs : List (Fn Int)
   let pass := showSeg (st.built.map (fun f => f input))
   let own := showSeg ((if impl then st.fs else fs).map (fun f => f input))
   " # ".intercalate (st.outs ++ [pass, pass, own, own])
+
+/-! ## results are values (`rr` cases): every composed function is invoked on input A, then on input B, and
+    the result of the first invocation is read again afterwards (and likewise once more) — an invocation must not
+    rewrite what an earlier invocation returned, also when every stage hands back the slice it was given. -/
+
+def runRR (impl : Bool) (script : String) (a b : List Int) (fs : List (Fn Int)) : String :=
+  let st := if impl then ruRun compose pipe (script.splitOn ",") [] fs
+            else ruRun Spec.compose Spec.pipe (script.splitOn ",") [] fs
+  " | ".intercalate (st.built.map (fun f =>
+    let ra := showRes (f a)
+    let rb := showRes (f b)
+    -- first result, second result, first result re-read after the second invocation, second re-read after a third
+    " > ".intercalate [ra, rb, ra, rb]))
 
 /-! ## adapters -/
 
@@ -424,6 +443,8 @@ def run (impl : Bool) (line : String) : String :=
     runCG impl variant (k.toNat?.getD 0) (parseInts input) ((toks body).map fnOfTok)
   | ["ru", script, input] =>
     runRU impl script (parseInts input) ((toks body).map fnOfTok)
+  | ["rr", script, a, b] =>
+    runRR impl script (parseInts a) (parseInts b) ((toks body).map fnOfTok)
   | ["ad", name, b] =>
     showRes ((if impl then runAdapterImpl else runAdapterSpec) name (parseInts b) (parseInts body.trimAscii.toString))
   | ["tr", kd, ke, mode] =>
